@@ -138,11 +138,11 @@ def check_rules(ctx, prefix, nprog_q, nprog_t, thin=1):
 
 
 def run_C01(ctx):
-    return check_rules(ctx, "C01", 50, 600, thin=3)
+    return check_rules(ctx, "C01", 50, 300, thin=8)
 
 
 def run_C08(ctx):
-    return check_rules(ctx, "C08", 50, 300, thin=6)
+    return check_rules(ctx, "C08", 50, 200, thin=12)
 
 
 # =================================================================================== formulas
